@@ -145,10 +145,7 @@ PINS = {
     "retry_helpers.py:_call_attempt_start": "1a71ddaeb71963a7",
     "retry_helpers.py:_call_attempt_end": "ad54ac76b0ac6fa8",
     "state.py:_RetryState.__init__": "00607feb99a36686",
-    "state.py:_RetryState.check_abort": "1ff6cf3850e930e9",
     "state.py:_RetryState.elapsed": "24d14ec31b37eec2",
-    "state.py:_RetryState.emit": "f96e3486d871c7bb",
-    "state.py:_RetryState.record_failure": "2125a9cb5b3e0bcc",
     "state.py:_RetryState.record_success": "27122d2b3b615707",
     "state.py:_RetryState.handle_exception": "4ba40371aaff73c4",
     "state.py:_RetryState.handle_result": "40ca13e08c6d2b9c",
@@ -166,7 +163,6 @@ PINS = {
     "runner/async_runner.py:run_async_execute": "4fd687721fe0e280",
     "runner/timeline.py:_TimelineCollector.__init__": "63986920bb359eab",
     "runner/timeline.py:_TimelineCollector.record": "8596ce458d9f9d91",
-    "runner/timeline.py:_resolve_timeline": "5cf53cf529e6db62",
     "runner/sync_core.py:_handle_abort_attempt_end": "6aaf6286d3ebf8e7",
     "runner/sync_core.py:_handle_success_attempt_end": "254d541d66e629c7",
     "runner/async_core.py:_handle_abort_attempt_end": "6aaf6286d3ebf8e7",
@@ -183,15 +179,15 @@ HELPERS = {"runner/logic.py": ["should_classify_result", "determine_action_from_
            "retry_helpers.py": ["_build_outcome", "_abort_outcome", "_call_attempt_end_from_outcome", "_resolve_sleep", "_resolve_before_sleep",
                                 "_resolve_sleeper", "_resolve_attempt_hooks", "_call_attempt_start", "_call_attempt_end"],
            # the state operations every translated fragment (PyIRF, PyIRS, PyIRL) reads as Runner.v's emit / check_abort / ...
-           "state.py": ["_RetryState.__init__", "_RetryState.check_abort", "_RetryState.elapsed", "_RetryState.emit",
-                        "_RetryState.record_failure", "_RetryState.record_success", "_RetryState.handle_exception",
+           # (emit, check_abort and record_failure are translated: pyir_state.py)
+           "state.py": ["_RetryState.__init__", "_RetryState.elapsed", "_RetryState.record_success", "_RetryState.handle_exception",
                         "_RetryState.handle_result", "_build_backoff_context"],
            # construction of the policy object and the public entry points that resolve call-level against policy-level
            # callbacks (Runner.resolve) and start the loops
            "base.py": ["_BaseRetryPolicy.__init__", "_BaseRetryPolicy._select_strategy", "_normalize_classification"],
            "retry_sync.py": ["Retry.call", "Retry.execute"],
            "retry_async.py": ["AsyncRetry.call", "AsyncRetry.execute"],
-           "runner/sync_runner.py": None, "runner/async_runner.py": None, "runner/timeline.py": None,
+           "runner/sync_runner.py": None, "runner/async_runner.py": None, "runner/timeline.py": ["_TimelineCollector.__init__", "_TimelineCollector.record"],
            "runner/sync_core.py": ["_handle_abort_attempt_end", "_handle_success_attempt_end"],
            "runner/async_core.py": ["_handle_abort_attempt_end", "_handle_success_attempt_end"]}
 
